@@ -262,4 +262,107 @@ example :
       some ([], [], true, 20) := by
   refine ⟨?_, ?_, ?_⟩ <;> decide +kernel
 
+/-- **Fair-run termination with `Close()` inside the run.**  Same hypotheses as
+    `fchan_fair_run_terminates`; in addition another goroutine calls `Close()` after the `n`-th
+    transition of the fair run — **any** `n` (if the run is over earlier: at its end), i.e. at any point:
+    main at the `select`, blocked in the read, inside the mutex, in an `emit`, callbacks in flight — and
+    the scheduler goes on with any policy `pol2`.  With fuel ≥ `stepBound (tableBound T) |rs|` for the
+    second phase the whole run (first phase, `closeSig`, second phase) has at most `stepBound …`
+    transitions (the old bound: `closeSig` is the `+ 1` of the bound), the scheduler stops by itself
+    with `run` returned, the channel closed and drained, every callback goroutine returned, the mutex
+    free, no timer pending, and the consumer has `pre ++ [EOF]` with no EOF in `pre`; the trace is a run
+    of the layer, its statements a run of the statement-grained system whose output is exactly what
+    was received; the reads of the trace are a **prefix** of the script (`++ frestClose … = script`),
+    and after the `Close()` at most one read returns (the pending one). -/
+theorem fchan_fair_run_terminates_with_close (T : Table) (hT : TimerOk T) (cap : Nat) (hcap : 0 < cap)
+    (pol pol2 : Policy) (rs : List Nat) (n fuel : Nat) (hf : stepBound (tableBound T) rs.length ≤ fuel) :
+    let s := fdriveClose T cap pol pol2 n fuel FCSys.init (inputScript rs)
+    let tr := ftraceClose T cap pol pol2 n fuel FCSys.init (inputScript rs)
+    (s.f.mpc = .done ∧ s.f.chanClosed = true ∧ s.chan = [] ∧ s.pend = [] ∧ (∀ c ∈ s.f.cbs, c.2 = .gone) ∧
+      s.f.mutex = none ∧ s.f.armed = none) ∧
+    (∃ pre, s.recvd = pre ++ [.eof] ∧ Seq.eof ∉ pre) ∧
+    FCSys.run T cap FCSys.init tr = some s ∧ tr.length ≤ stepBound (tableBound T) rs.length ∧
+    FSys.run T FSys.init (stmtLabels tr) = some (s.f, s.recvd) ∧
+    readsOf tr ++ frestClose T cap pol pol2 n fuel FCSys.init (inputScript rs) = inputScript rs ∧
+    (readsOf (ftrace T cap pol2 fuel (closeOf (fdrive T cap pol n FCSys.init (inputScript rs)))
+      (frest T cap pol n FCSys.init (inputScript rs)))).length ≤ 1 := by
+  intro s tr
+  have hmu := mu_init (tableBound T) rs
+  obtain ⟨hci1, hE1, hlen1⟩ := fdrive_inv T hT (tableBound T) (step_out_le T) cap pol n FCSys.init (inputScript rs)
+    (CI_init cap) (E_init rs)
+  have hrun1 : FCSys.run T cap FCSys.init (ftrace T cap pol n FCSys.init (inputScript rs)) = some _ :=
+    fdrive_is_run T cap pol n _ _
+  have hcs := close_step T cap (fdrive T cap pol n FCSys.init (inputScript rs))
+  have hci2 := (step_proj T hT cap _ _ _ hci1 hcs).1
+  have hE2 := E_close _ _ hE1
+  have hmu2 := mu_close_eq (tableBound T) (fdrive T cap pol n FCSys.init (inputScript rs))
+    (frest T cap pol n FCSys.init (inputScript rs))
+  obtain ⟨⟨hd, hp, hc, hg⟩, hE⟩ := fdrive_final T hT (tableBound T) (step_out_le T) cap hcap pol2 fuel _ _ hci2 hE2
+    (by omega)
+  have hrun2 := fdrive_is_run T cap pol2 fuel (closeOf (fdrive T cap pol n FCSys.init (inputScript rs)))
+    (frest T cap pol n FCSys.init (inputScript rs))
+  have hlen2 := ftrace_length T (tableBound T) (step_out_le T) cap pol2 fuel
+    (closeOf (fdrive T cap pol n FCSys.init (inputScript rs))) (frest T cap pol n FCSys.init (inputScript rs))
+  have hrun : FCSys.run T cap FCSys.init tr = some s := by
+    show FCSys.run T cap FCSys.init (_ ++ _ :: _) = _
+    rw [frun_append' T cap _ _ FCSys.init _ hrun1]
+    simp only [FCSys.run, hcs]
+    exact hrun2
+  have hcie := (run_proj T hT cap tr FCSys.init s (CI_init cap) hrun).1
+  obtain ⟨hm, ha⟩ := final_quiet s.f hcie.inv hd hg
+  obtain ⟨out, h1, h2, _⟩ := VaxisModel.Props.C08FineChan.fchan_refines_fine T hT cap tr s hrun
+  have hr1 := ftrace_reads T cap pol n FCSys.init (inputScript rs)
+  have hr2 := ftrace_reads T cap pol2 fuel (closeOf (fdrive T cap pol n FCSys.init (inputScript rs)))
+    (frest T cap pol n FCSys.init (inputScript rs))
+  have hone := reads_after_close T cap _ _ _ rfl hrun2
+  refine ⟨⟨hd, hE.dc hd, hc, hp, hg, hm, ha⟩,
+    (VaxisModel.Props.C08FineChan.fchan_eof_received_last T hT cap tr s hrun).1 ⟨hd, hp, hc⟩, hrun, ?_, ?_, ?_, ?_⟩
+  · show (_ ++ _ :: _).length ≤ _
+    simp only [List.length_append, List.length_cons]
+    omega
+  · have hc' : s.chan = [] := hc
+    have hp' : s.pend = [] := hp
+    rw [h1, ← h2, hc', hp', List.append_nil, List.append_nil]
+  · show readsOf (_ ++ _ :: _) ++ frest _ _ _ _ _ _ = _
+    rw [readsOf_append]
+    simp only [readsOf, List.append_assoc]
+    rw [hr2, hr1]
+  · refine Nat.le_trans hone ?_
+    split <;> omega
+
+/-- … for the code as it is (the parser's table, `chanCap` = 2): `Close()` after any number of transitions,
+    at most `42·(|rs| + 1) + 10` transitions in all. -/
+theorem fchan_fair_run_terminates_with_close_code (pol pol2 : Policy) (rs : List Nat) (n fuel : Nat)
+    (hf : 42 * (rs.length + 1) + 10 ≤ fuel) :
+    let s := fdriveClose handTable Gen.ParserTable.chanCap pol pol2 n fuel FCSys.init (inputScript rs)
+    let tr := ftraceClose handTable Gen.ParserTable.chanCap pol pol2 n fuel FCSys.init (inputScript rs)
+    (s.f.mpc = .done ∧ s.f.chanClosed = true ∧ s.chan = [] ∧ s.pend = [] ∧ (∀ c ∈ s.f.cbs, c.2 = .gone) ∧
+      s.f.mutex = none ∧ s.f.armed = none) ∧
+    (∃ pre, s.recvd = pre ++ [.eof] ∧ Seq.eof ∉ pre) ∧
+    FCSys.run handTable Gen.ParserTable.chanCap FCSys.init tr = some s ∧ tr.length ≤ 42 * (rs.length + 1) + 10 ∧
+    FSys.run handTable FSys.init (stmtLabels tr) = some (s.f, s.recvd) ∧
+    readsOf tr ++ frestClose handTable Gen.ParserTable.chanCap pol pol2 n fuel FCSys.init (inputScript rs) =
+      inputScript rs := by
+  have h := fchan_fair_run_terminates_with_close handTable handTable_timerOk Gen.ParserTable.chanCap (by decide) pol pol2
+    rs n fuel (by rw [hand_tableBound]; simpa [stepBound] using hf)
+  rw [hand_tableBound] at h
+  obtain ⟨h1, h2, h3, h4, h5, h6, _⟩ := h
+  exact ⟨h1, h2, h3, by simpa [stepBound] using h4, h5, h6⟩
+
+-- non-vacuity: ESC [ A, no timer expiry; `Close()` is called after 8 transitions, while the main goroutine is
+-- blocked in the read that will return `[` (ESC has been parsed, the timer is pending): the pending read
+-- returns `[`, which is still parsed (CSI entry, nothing emitted), then the `select` takes the close arm:
+-- only EOF is received, `A` is never read (it is what is left of the script), 23 transitions in all.
+example :
+    (let s0 := fdrive handTable Gen.ParserTable.chanCap noExpiry 8 FCSys.init (inputScript [0x1B, 0x5B, 0x41])
+     (s0.f.mpc, s0.f.armed, frest handTable Gen.ParserTable.chanCap noExpiry 8 FCSys.init (inputScript [0x1B, 0x5B, 0x41])) =
+       (.inRead, some 1, [.rune 0x5B, .rune 0x41, .eof])) ∧
+    (let s := fdriveClose handTable Gen.ParserTable.chanCap noExpiry noExpiry 8 178 FCSys.init (inputScript [0x1B, 0x5B, 0x41])
+     (s.recvd, s.f.mpc, s.f.cbs, s.chan, s.pend, s.f.chanClosed) = ([.eof], .done, [], [], [], true)) ∧
+    readsOf (ftraceClose handTable Gen.ParserTable.chanCap noExpiry noExpiry 8 178 FCSys.init (inputScript [0x1B, 0x5B, 0x41])) =
+      [.rune 0x1B, .rune 0x5B] ∧
+    frestClose handTable Gen.ParserTable.chanCap noExpiry noExpiry 8 178 FCSys.init (inputScript [0x1B, 0x5B, 0x41]) =
+      [.rune 0x41, .eof] := by
+  refine ⟨?_, ?_, ?_, ?_⟩ <;> decide +kernel
+
 end VaxisModel.Props.C08FineFair
